@@ -177,6 +177,66 @@ type Evidence struct {
 	Violations  int                    `json:"violations"`
 }
 
+type KnownFinding struct {
+	Property   string `json:"property"`
+	Obligation string `json:"obligation"`
+	What       string `json:"what"`
+	Witness    string `json:"witness,omitempty"`
+	Status     string `json:"status,omitempty"` // "open" (default) or "fixed: <commit>"
+}
+
+type KnownFile struct {
+	Findings []KnownFinding `json:"findings"`
+	Fixed    []string       `json:"fixed"`
+}
+
+func loadKnown(verif string) *KnownFile {
+	k := &KnownFile{}
+	b, err := os.ReadFile(filepath.Join(verif, "known_findings.json"))
+	if err == nil {
+		if err := json.Unmarshal(b, k); err != nil {
+			fatal("known_findings.json: %v", err)
+		}
+	}
+	return k
+}
+
+// propertyFuncs: which functions a property's obligations can live in (all functions for the sweeps).
+func wantsFunc(g *Gen, f *ssa.Function, prop string) bool {
+	switch prop {
+	case "", "C03", "C06", "C07", "C09":
+		return true
+	}
+	c := g.Spec.Contracts[FuncKey(f)]
+	if c == nil {
+		return false
+	}
+	has := func(tags []string) bool {
+		for _, t := range tags {
+			if t == prop {
+				return true
+			}
+		}
+		return false
+	}
+	if has(c.Tags) {
+		return true
+	}
+	for _, cl := range append(append([]*Clause{}, c.Requires...), c.Ensures...) {
+		if has(cl.Tags) {
+			return true
+		}
+	}
+	for _, l := range c.Loops {
+		for _, cl := range l.Invariants {
+			if has(cl.Tags) {
+				return true
+			}
+		}
+	}
+	return false
+}
+
 func cmdCheck(args []string) {
 	fs := flag.NewFlagSet("check", flag.ExitOnError)
 	repo := fs.String("repo", "/repo", "")
@@ -185,8 +245,11 @@ func cmdCheck(args []string) {
 	tier := fs.String("tier", "quick", "")
 	only := fs.String("func", "", "restrict to one function (debugging)")
 	verbose := fs.Bool("v", false, "")
+	noEvidence := fs.Bool("no-evidence", false, "")
 	fs.Parse(args)
 	start := time.Now()
+	seed := 0
+	fmt.Sscan(os.Getenv("VERIF_SEED"), &seed)
 	g := loadAll(*repo, *verif)
 	timeout := 10000
 	if *tier == "thorough" {
@@ -196,6 +259,9 @@ func cmdCheck(args []string) {
 	genErrs := map[string]error{}
 	for _, f := range g.sortedFuncs() {
 		if *only != "" && shortKey(FuncKey(f)) != *only {
+			continue
+		}
+		if !wantsFunc(g, f, *prop) {
 			continue
 		}
 		fg, err := g.GenFunc(f)
@@ -220,16 +286,56 @@ func cmdCheck(args []string) {
 		}
 		return false
 	}
+	// vacuity guards: the assumptions of every function with selected obligations must be satisfiable
+	for _, fg := range fgs {
+		n := 0
+		for _, o := range fg.obls {
+			if filter(o) {
+				n++
+			}
+		}
+		if n > 0 && fg.c != nil && len(fg.c.Requires) > 0 {
+			fg.obls = append(fg.obls, &Obligation{Name: shortKey(fg.key) + "/cover.entry", Kind: "cover", Func: fg.key, Tags: []string{*prop}, Guard: "true", Goal: "false", Expect: "sat", Block: -2, Text: "requires clauses are satisfiable (vacuity guard)"})
+		}
+	}
 	results := Discharge(pre, fgs, filter, timeout, runtime.NumCPU(), *tier == "thorough")
+	known := loadKnown(*verif)
+	isKnown := func(name string) *KnownFinding {
+		for i := range known.Findings {
+			k := &known.Findings[i]
+			if k.Obligation == name && (k.Property == *prop || *prop == "") {
+				return k
+			}
+		}
+		return nil
+	}
 	proved, failed, unknown := 0, 0, 0
+	violations := 0
+	var lines []string
+	byBackend := map[string]int{}
+	solverTime := 0.0
+	funcsUnder := map[string]bool{}
+	var samples []interface{}
+	var slow []string
+	var knownHit []string
+	usedExt := map[string]bool{}
 	for _, r := range results {
+		funcsUnder[shortKey(r.O.Func)] = true
+		solverTime += r.Seconds
 		switch r.Status {
 		case "proved":
 			proved++
+			byBackend[r.Solver]++
+			if len(samples) < 8 && r.O.Kind != "cover" {
+				samples = append(samples, map[string]string{"obligation": r.O.Name, "kind": r.O.Kind, "at": r.O.Pos, "clause": r.O.Text, "backend": r.Solver})
+			}
 		case "failed":
 			failed++
 		default:
 			unknown++
+		}
+		if r.Seconds > 5 {
+			slow = append(slow, fmt.Sprintf("%s %.1fs", r.O.Name, r.Seconds))
 		}
 		if *verbose || r.Status != "proved" {
 			fmt.Printf("%-8s %-60s %s %.2fs %s\n", r.Status, r.O.Name, r.Solver, r.Seconds, r.O.Pos)
@@ -240,12 +346,121 @@ func cmdCheck(args []string) {
 				}
 			}
 		}
+		if r.Status == "proved" {
+			continue
+		}
+		if r.O.Kind == "cover" {
+			fmt.Printf("ENGINE-FAULT vacuous contract: %s\n", r.O.Name)
+			violations++
+			continue
+		}
+		if k := isKnown(r.O.Name); k != nil {
+			line := fmt.Sprintf("KNOWN-FINDING: property=%s %s %s", k.Property, r.O.Name, k.What)
+			lines = append(lines, line)
+			knownHit = append(knownHit, r.O.Name)
+			continue
+		}
+		violations++
+		id := *prop
+		if id == "" {
+			id = firstOr(r.O.Tags, "none")
+		}
+		rp := writeReplay(*verif, id, r)
+		suffix := ""
+		if !r.confirmed {
+			suffix = " no-failing-input-found"
+		}
+		lines = append(lines, fmt.Sprintf("VIOLATION property=%s replay=%s obligation=%s%s", id, rp, r.O.Name, suffix))
 	}
+	var genErrNames []string
 	for k, e := range genErrs {
 		fmt.Printf("GENERROR %s: %v\n", shortKey(k), e)
+		genErrNames = append(genErrNames, shortKey(k))
 	}
-	fmt.Printf("obligations=%d proved=%d failed=%d unknown=%d wall=%.1fs\n", len(results), proved, failed, unknown, time.Since(start).Seconds())
-	_ = json.Marshal
+	sort.Strings(genErrNames)
+	for _, l := range lines {
+		fmt.Println(l)
+	}
+	for _, fg := range fgs {
+		for k := range fg.callsExternalUnmodelled {
+			usedExt[k] = true
+		}
+	}
+	fmt.Printf("property=%s tier=%s obligations=%d proved=%d failed=%d unknown=%d known=%d wall=%.1fs\n", *prop, *tier, len(results), proved, failed, unknown, len(knownHit), time.Since(start).Seconds())
+	if *prop != "" && !*noEvidence {
+		var fl []string
+		for f := range funcsUnder {
+			fl = append(fl, f)
+		}
+		sort.Strings(fl)
+		var trusted []string
+		for k, c := range g.Spec.Contracts {
+			if c.Trusted {
+				trusted = append(trusted, k)
+			}
+		}
+		sort.Strings(trusted)
+		var unm []string
+		for k := range usedExt {
+			unm = append(unm, k)
+		}
+		sort.Strings(unm)
+		ev := Evidence{PropertyID: *prop, Tier: *tier, Seed: seed, Level: "proof", WallS: time.Since(start).Seconds(), Violations: violations,
+			Coverage: map[string]interface{}{
+				"obligations": len(results), "discharged": proved,
+				"checker_cmd":  fmt.Sprintf("bin/check %s --tier %s", *prop, *tier),
+				"trusted_base": []string{"go/types + go/ssa (x/tools v0.50.0) as the meaning of the Go source", "govc translation of the SSA subset G0 (DESIGN.md 2.3)", "z3 5.1.0 (z3-new), z3 4.8.12, cvc5 1.0.3", "platform linux/amd64: int is 64 bits"},
+				"samples":      samples, "functions_under_contract": fl, "by_backend": byBackend, "solver_time_s": solverTime, "slowest": slow,
+				"known_findings": knownHit, "undecided_functions": genErrNames, "not_discharged": failed + unknown - len(knownHit),
+				"unmodelled_external_calls_havoced": unm,
+			},
+			Assumptions: append([]string{
+				"external contracts marked trusted in /verif/contracts/ext.gvc are assumed, not proved: " + strings.Join(trusted, ", "),
+				"integers are mathematical integers with explicit 64-bit wrap on + - * and conversions; floats are uninterpreted except for the listed facts",
+				"append on a slice owned by the call is modelled as producing a new backing array (aliasing between an owned slice and its pre-append value is not modelled)",
+				"objects that existed at function entry are not written by loops/callees: justified by the frame obligations of property C06, which are discharged separately",
+			}, propertyAssumptions(*prop)...),
+		}
+		if len(results) == 0 {
+			fmt.Printf("ENGINE-FAULT no obligations generated for %s\n", *prop)
+			violations++
+		}
+		os.MkdirAll(filepath.Join(*verif, "evidence"), 0o755)
+		b, _ := json.MarshalIndent(ev, "", " ")
+		os.WriteFile(filepath.Join(*verif, "evidence", *prop+".json"), b, 0o644)
+	}
+	if len(genErrs) > 0 {
+		os.Exit(2)
+	}
+	if violations > 0 {
+		os.Exit(1)
+	}
+}
+
+func firstOr(a []string, d string) string {
+	if len(a) > 0 {
+		return a[0]
+	}
+	return d
+}
+
+func propertyAssumptions(p string) []string {
+	return nil
+}
+
+func writeReplay(verif, prop string, r *Result) string {
+	dir := filepath.Join(verif, "replays", prop)
+	os.MkdirAll(dir, 0o755)
+	name := strings.NewReplacer("/", "_", "#", "_", "@", "_").Replace(r.O.Name) + ".json"
+	p := filepath.Join(dir, name)
+	doc := map[string]interface{}{
+		"property": prop, "obligation": r.O.Name, "kind": r.O.Kind, "function": r.O.Func, "at": r.O.Pos, "clause": r.O.Text,
+		"status": r.Status, "solver": r.Solver, "model": r.Model, "solver_output": r.Output,
+		"confirmed_on_real_code": r.confirmed, "replay": r.replayInfo,
+	}
+	b, _ := json.MarshalIndent(doc, "", " ")
+	os.WriteFile(p, b, 0o644)
+	return p
 }
 
 func cmdReplay(args []string) {}
